@@ -526,3 +526,65 @@ func c17R6(c *Ctx) {
 		}
 	}
 }
+
+// c17R7: Close releases whoever waits on the session. The handle is created by the handshake before the
+// state becomes open, so which state Close took over from says nothing about whether a handle exists.
+// On every path of Client.Close that publishes completion (close(c.closeDone)), the handle's Close was
+// called, or c.ss / c.ss.handle was found nil on that path. A handle left open keeps Read / ReadMsg on the
+// closed client blocked for ever (its queue has no close, no deadline and no producer).
+func c17R7(c *Ctx) {
+	P := c.P
+	const rule = "C17.R7"
+	c.Rule(rule, "close releases the session's readers: every path of Client.Close that closes closeDone has called Close on c.ss.handle, unless c.ss or c.ss.handle was found nil on that path (a built handle that is not closed leaves Read on the closed client blocked for ever) (E1 decision table)")
+	fn := P.Func("transport", "(*Client).Close")
+	fSS := P.Field("transport", "Client", "ss")
+	fHandle := P.Field("transport", "SessionState", "handle")
+	fDone := P.Field("transport", "Client", "closeDone")
+	if fn == nil || fSS == nil || fHandle == nil || fDone == nil {
+		c.Undecided(rule, "transport.(*Client).Close", "function or fields not found")
+		return
+	}
+	handleClose := hopID("transport", "Handle", "Close")
+	name := FuncName(fn)
+	c.Analysed(name)
+	fs := newFailSet()
+	owners := 0
+	ok := walkAll(c, rule, fn, func(p *Path) {
+		publishes := -1
+		closed := false
+		var pub ssa.Instruction
+		p.ForEach(func(i int, ins ssa.Instruction) bool {
+			call, ok := ins.(*ssa.Call)
+			if !ok {
+				return true
+			}
+			if b, ok := call.Call.Value.(*ssa.Builtin); ok && b.Name() == "close" && len(call.Call.Args) == 1 && lastField(call.Call.Args[0]) == fDone {
+				publishes, pub = i, ins
+				return false
+			}
+			if calleeID(call) == handleClose && len(call.Call.Args) > 0 && lastField(call.Call.Args[0]) == fHandle {
+				closed = true
+			}
+			return true
+		})
+		if publishes < 0 {
+			return
+		}
+		owners++
+		if closed {
+			return
+		}
+		for key, val := range p.FactsAt(publishes) {
+			if key.op == token.EQL && key.y == nil && val {
+				if f := lastField(key.x); f == fSS || f == fHandle {
+					return // nothing to close
+				}
+			}
+		}
+		fs.add("handle-closed", "Client.Close completes without closing the session handle on a path where neither c.ss nor c.ss.handle was found nil: a handle built by a handshake that lost the race with Close stays open and Read on the closed client never returns", pub, p)
+	})
+	if ok {
+		fs.report(c, rule, name, []string{"handle-closed"}, P.Pos(fn.Pos()), fmt.Sprintf("holds on all %d completing paths", owners))
+		c.Floor(rule, "completing paths of Client.Close", owners, 1)
+	}
+}
